@@ -222,6 +222,17 @@ def check_sequence(kind, codes, codes2):
         return "concatenation"
     if str(a.reverse()) != s1[::-1] or str(a.reverse().reverse()) != s1:
         return "reverse"
+    if len(s1):               # the reversed sequence is a copy (default copy=True) - also for a single symbol
+        r = a.reverse()
+        r[0] = syms[(codes[-1] + 1) % len(syms)]
+        if str(a) != s1:
+            return f"assignment to reverse() of {s1!r} changed the original to {str(a)!r}"
+        r2 = a.reverse()
+        a2 = mk(s1)
+        a2r = a2.reverse()
+        a2[len(s1) - 1] = syms[(codes[-1] + 1) % len(syms)]
+        if str(a2r) != s1[::-1]:
+            return f"assignment to {s1!r} changed its earlier reverse() to {str(a2r)!r}"
     if (a == b) != (s1 == s2) or a != mk(s1) or (a == mk(s1)) is False:
         return "equality"
     c = a.copy()
